@@ -60,6 +60,9 @@ def check(prog, rep, tier):
                       'or configuration state (registries are filled by decorators at import only)')
     rep.rule('R10.e', 'clean close: once the session is Idle (closed, restart pending) further input in the same '
                       'chunk produces no message, no second close and no state change')
+    rep.rule('R10.h', 'a header that violates the framing rules (marker, length outside [19,4096], unknown type) is '
+                      'answered at once in every state; no header is left undecided (waiting for octets that a '
+                      'bogus length announces)')
     rep.rule('R10.g', 'a well-framed message whose decoder raises is still consumed (it must not change how the '
                       'messages after it are decoded)')
     rep.rule('R10.f', 'no endless loop in the OPEN decoder (loop progress, as C11 R11.a; UPDATE decoders are C11)')
@@ -187,6 +190,39 @@ def check(prog, rep, tier):
                 found='no path delivers a decoded UPDATE', key='update-path')
     else:
         rep.ok('R10.c', 'update-path', file=PROTO)
+
+    # ---------------------------------------------------------------- R10.h
+    from .. import profile as P
+    seen_h = {}
+    for state in ORDER:
+        for r in tab.get('WIRE', state):
+            cls_ = r.wire['cls']
+            if r.kind == 'raise':
+                continue
+            if cls_ in ('AMBIGUOUS', 'AMBIGUOUS_LEN'):
+                name = 'undecided-header@%s' % state
+                if seen_h.get(name) != 'bad':
+                    seen_h[name] = 'bad'
+                    rep.bad('R10.h', name, file=PROTO, line=common.row_line(r), func='BGP.parse_buffer',
+                            found='a header whose length (%s) / type (%s) is outside the legal range is neither rejected '
+                                  'nor dispatched on this path: the agent waits for more input and swallows what follows'
+                                  % (r.wire.get('len'), r.wire.get('type')),
+                            expected='NOTIFICATION (1,2) / (1,3) and close as soon as the header is complete',
+                            key=name, path=r.describe())
+            elif cls_ in ('BAD_MARKER', 'BAD_LEN', 'UNKNOWN_TYPE'):
+                sub = {'BAD_MARKER': 1, 'BAD_LEN': 2, 'UNKNOWN_TYPE': 3}[cls_]
+                okp, probs, alt = P.evaluate(P.hdr_cell(1, sub, state), r)
+                name = 'header-answer:%s@%s' % (cls_, state)
+                if okp:
+                    if name not in seen_h:
+                        seen_h[name] = 'ok'
+                        rep.ok('R10.h', name, file=PROTO, line=common.row_line(r))
+                elif seen_h.get(name) != 'bad':
+                    seen_h[name] = 'bad'
+                    rep.bad('R10.h', name, file=PROTO, line=common.row_line(r), func='BGP.parse_buffer',
+                            found='; '.join(probs), expected=alt, key=name, path=r.describe())
+    if not seen_h:
+        rep.undecided('R10.h', 'header-answer', found='no header-violation rows')
 
     # ---------------------------------------------------------------- R10.g
     seen_g = {}
